@@ -55,7 +55,7 @@ func ThePool() *Pool {
 				p.EdEncPEM = append(p.EdEncPEM, mustRead(fmt.Sprintf("ed%d.enc.pem", i)))
 			}
 		}
-		for i := 0; i < 4; i++ {
+		for i := 0; i < 5; i++ { // rsa4 has a 2052-bit modulus (not a multiple of 8)
 			b := mustRead(fmt.Sprintf("rsa%d.pem", i))
 			k, err := ssh.ParseRawPrivateKey(b)
 			if err != nil {
